@@ -754,6 +754,10 @@ class SBT(Index):
                 # trigger data loading before saving to the new place
                 node.data
 
+                # save through the target storage without re-homing the node: a node
+                # of an in-memory tree has no _path to be reloaded from, and a node of a
+                # loaded tree keeps reading from the storage it was loaded from
+                previous_storage = node.storage
                 node.storage = storage
 
                 if kind == "Zip":
@@ -765,6 +769,8 @@ class SBT(Index):
                     data["filename"] = new_name
                 else:
                     data["filename"] = node.save(data["filename"])
+
+                node.storage = previous_storage
 
             if isinstance(node, Node):
                 nodes[i] = data
